@@ -458,4 +458,69 @@ theorem xCommit_good (f : List F) (B : G) (n : Nat) (hc : CharGt F n)
 
 end CommitGlue
 
+section CommitTotal
+variable {G : Type} [AddCommGroup G] [Module F G] [DecidableEq G]
+
+/-- distinct in-range indices give distinct keys and distinct evaluation points -/
+theorem xCommit_keys (n : Nat) (hc : CharGt F n) (shares : List (Option (PubShare G)))
+    (hdist : ((shares.filterMap (usablePub n)).map (·.1)).Nodup) :
+    ((xCommitAux F n 0 shares).map (·.pos)).Nodup ∧ ((xCommitAux F n 0 shares).map (·.x)).Nodup := by
+  have hp := xCommitAux_pairs (F := F) n shares 0
+  have hrange : ∀ iv ∈ shares.filterMap (usablePub n), 0 ≤ iv.1 ∧ iv.1 < (n : Int) := by
+    intro iv hiv
+    obtain ⟨s, _, hs⟩ := List.mem_filterMap.1 hiv
+    exact (usablePub_some (i := iv.1) (v := iv.2) hs).2
+  have hx : (xCommitAux F n 0 shares).map (·.x)
+      = ((shares.filterMap (usablePub n)).map (·.1)).map (fun i => (xOf i : F)) := by
+    have := congrArg (List.map Prod.fst) hp
+    simp only [List.map_map] at this ⊢
+    exact this
+  refine ⟨nodup_of_pairwise_lt (xCommitAux_pos (F := F) n shares 0).1, ?_⟩
+  rw [hx]
+  apply List.Nodup.map_on _ hdist
+  intro a ha b hb hab
+  obtain ⟨iva, hiva, rfl⟩ := List.mem_map.1 ha
+  obtain ⟨ivb, hivb, rfl⟩ := List.mem_map.1 hb
+  have ra := hrange iva hiva
+  have rb := hrange ivb hivb
+  exact xOf_injOn hc _ _ ra.1 ra.2 rb.1 rb.2 hab
+
+/-- `RecoverCommit` on distinct in-range indices never divides by zero, whatever the values -/
+theorem recoverCommit_no_panic (dp : Bool) (t n : Nat) (hc : CharGt F n)
+    (shares : List (Option (PubShare G)))
+    (hdist : ((shares.filterMap (usablePub n)).map (·.1)).Nodup) :
+    recoverCommit (S := F) dp shares t n = .err .few ∨ ∃ c, recoverCommit (S := F) dp shares t n = .ok c := by
+  obtain ⟨hpos, hx⟩ := xCommit_keys n hc shares hdist
+  unfold recoverCommit
+  by_cases hlt : (xCommitAux F n 0 shares).length < t
+  · left; simp [hlt]
+  · right
+    simp only [hlt, if_false]
+    exact ⟨_, commit_fold dp _ _ (fun i hi => den_ne_zero _ hpos hx i hi _) 0⟩
+
+/-- `RecoverCommit` returns `f(0) • B` from `≥ t ≥ len f` public shares of distinct members -/
+theorem recoverCommit_ok (dp : Bool) (f : List F) (B : G) (t n : Nat) (hf : f.length ≤ t)
+    (hc : CharGt F n) (shares : List (Option (PubShare G)))
+    (hval : ∀ iv ∈ shares.filterMap (usablePub n), iv.2 = priEval f iv.1 • B)
+    (hcnt : t ≤ (shares.filterMap (usablePub n)).length)
+    (hdist : ((shares.filterMap (usablePub n)).map (·.1)).Nodup) :
+    recoverCommit (S := F) dp shares t n = .ok (f.headD 0 • B) := by
+  obtain ⟨hg, hlen⟩ := xCommit_good f B n hc shares hval hdist
+  have hdeg : (toPoly f).degree < (xCommitAux F n 0 shares).length := by
+    rw [hlen]; exact lt_of_lt_of_le (degree_toPoly_lt f) (by exact_mod_cast le_trans hf hcnt)
+  unfold recoverCommit
+  have : ¬ (xCommitAux F n 0 shares).length < t := by rw [hlen]; omega
+  simp only [this, if_false]
+  rw [commit_fold_good dp _ _ B hg hdeg, eval_zero_toPoly]
+
+theorem recoverCommit_few (dp : Bool) (t n : Nat) (shares : List (Option (PubShare G)))
+    (hfew : (shares.filterMap (usablePub n)).length < t) :
+    recoverCommit (S := F) dp shares t n = .err .few := by
+  have hlen : (xCommitAux F n 0 shares).length = (shares.filterMap (usablePub n)).length := by
+    simpa using congrArg List.length (xCommitAux_pairs (F := F) n shares 0)
+  unfold recoverCommit
+  simp [hlen, hfew]
+
+end CommitTotal
+
 end Dos.Share
